@@ -23,7 +23,8 @@ COMPONENTS = {"real": ["pyjelly parse.ioutils (framing detection, frame iterator
                        "writer in half of the runs: simkit.refenc"]}
 ASSUMPTIONS = ["blocking binary sources only (readinto never returns None)",
                "seekable sources are buffered (documented input contract)"]
-PROBES = ["first_read_lt3", "first_read_1", "frontend_raw", "frontend_buffered", "frontend_gzip",
+PROBES = ["first_read_lt3", "first_read_1", "frontend_raw", "frontend_buffered", "frontend_gzip", "frontend_duck",
+          "frontend_rwpair",
           "frontend_seekable_buffered", "nondelimited", "leading_empty_frames", "short_reads_ge10"]
 SHRINK_LISTS = ["ops", "items"]
 
@@ -42,7 +43,7 @@ def generate(rng, run, tier):
         plan["integration"] = integration
         plan["knobs"]["leading_empty"] = rng.random() < 0.5
     plan["consumer"] = rng.choice(["flat", "flat", "grouped", "to_graph", "plugin"])
-    plan["frontend"] = rng.choice(["raw", "raw", "buffered", "buffered", "seekable_buffered", "gzip"])
+    plan["frontend"] = rng.choice(["raw", "raw", "buffered", "buffered", "seekable_buffered", "gzip", "duck", "rwpair"])
     plan["policy"] = rng.choice(["tape", "tape", "tape", "one"])
     plan["bufsize"] = rng.choice([None, None, 1, 2, 3, 4, 16, 8192])
     return plan
@@ -103,7 +104,7 @@ def execute(plan, sim):
         return [{"clause": "C09.no_progress", "sig": {"frontend": fe},
                  "msg": f"parser did not finish within the raw-read cap: {e}"}], None
     first = pipe.first_reads[0] if pipe is not None and pipe.first_reads else None
-    if first is not None and first < 3 and fe in ("raw", "buffered"):
+    if first is not None and first < 3 and fe in ("raw", "buffered", "duck", "rwpair"):
         sim.count("first_read_lt3")
         if first == 1:
             sim.count("first_read_1")
@@ -114,7 +115,7 @@ def execute(plan, sim):
     if nshort and base[0] == "ok":
         key = (data, fe, sim.digest())
     if got != base:
-        sig = {"frontend": fe, "first_read_lt3": bool(first is not None and first < 3 and fe in ("raw", "buffered")),
+        sig = {"frontend": fe, "first_read_lt3": bool(first is not None and first < 3 and fe in ("raw", "buffered", "duck", "rwpair")),
                "delimited": delimited}
         return [{"clause": "C09.differs_from_bytesio", "sig": sig,
                  "msg": f"BytesIO -> {c01_abbrev(base)}; {fe} (first raw reads {pipe.first_reads if pipe else None}) "
